@@ -1,5 +1,5 @@
 \* simulation: random histories of 10 operations; paths of <= 3 components
-SPECIFICATION Spec
+SPECIFICATION SimSpec
 CONSTANTS
   KeySeq <- K3
   PathKeys = {"a", "b"}
@@ -10,4 +10,3 @@ CONSTANTS
   MaxDepth = 9
   Variant = "intended"
   MaxHist = 10
-CONSTRAINT Emit
